@@ -1181,19 +1181,37 @@ reg(Op("apply_gufunc2", 2, lambda a, b: b.ndim >= 1 and b.shape[:-1] == a.shape 
 
 
 # like-creation
+def _like_params(draw, st, vals):
+    v = vals[0]
+    p = {}
+    c = draw(st.integers(0, 1))
+    if c == 0 and v.ndim >= 1:
+        # explicit chunks= for the new array
+        p["chunks"] = [max(1, min(draw(st.sampled_from([1, 2, 3, max(s, 1)])), max(s, 1))) for s in v.shape]
+    if draw(st.integers(0, 4)) == 0:
+        p["dtype"] = draw(st.sampled_from(["int64", "float64", "float32", "bool"]))
+    return p
+
+
 for _n in ("ones_like", "zeros_like", "full_like"):
 
     def _cub(xp, a, p, _n=_n):
+        kw = {}
+        if p.get("chunks"):
+            kw["chunks"] = tuple(p["chunks"])
+        if p.get("dtype"):
+            kw["dtype"] = getattr(xp, p["dtype"])
         if _n == "full_like":
-            return xp.full_like(a[0], 3)
-        return getattr(xp, _n)(a[0])
+            return xp.full_like(a[0], 3, **kw)
+        return getattr(xp, _n)(a[0], **kw)
 
     def _ref(v, p, _n=_n):
+        kw = {"dtype": p["dtype"]} if p.get("dtype") else {}
         if _n == "full_like":
-            return np.full_like(v[0], 3)
-        return getattr(np, _n)(v[0])
+            return np.full_like(v[0], 3, **kw)
+        return getattr(np, _n)(v[0], **kw)
 
-    reg(Op(_n, 1, lambda a: True, _noparams, _cub, _ref, "exact", ("creation", "helper-array"), 1))
+    reg(Op(_n, 1, lambda a: True, _like_params, _cub, _ref, "exact", ("creation", "helper-array"), 1))
 
 reg(Op("empty_like", 1, lambda a: True, _noparams, lambda xp, a, p: xp.empty_like(a[0]), lambda v, p: np.empty_like(v[0]), "shape-only", ("creation",), 0))
 
